@@ -39,10 +39,10 @@ try:
         if m:
             c = m.group(1)
             c = re.sub(r"/tmp/mut2?/%s/wt" % ID, tree, c)
-            c = re.sub(r"-o\s+\S+", f"-o {exe}", c)
+            c = re.sub(r"-o\s+\S+", f"-o {exe}", c); c = c.replace("clang++-14", "clang++").replace("g++-12", "g++")
             if "-o " not in c: c += f" -o {exe}"
             cmd = c + " -w"
-        b = sh(cmd)
+        b = sh(cmd, cwd=src)
         if b.returncode != 0:
             b = sh(base + f" {tree}/fixed_lib/src/fixed_math.cc")
             cmd = base + " fixed_math.cc"
